@@ -109,8 +109,10 @@ def good_pairs(ctx, trace_path, diffs, limit=300):
         out += [a, b]
     step = max(1, (len(out) // 2) // limit)
     sel = []
-    for j in range(0, len(out), 2 * step):
-        sel += out[j:j + 2]
+    for j in range(0, len(out), 2):
+        # every step-th pair, and every pair with duplicated lanes or a compare (needed by the corruptions)
+        if (j // 2) % step == 0 or out[j].get('tag') == 'dup' or out[j]['f'] == 'VOPC':
+            sel += out[j:j + 2]
     p = os.path.join(ctx.scratch, 'good_pairs.ndjson')
     vlib.write_ndjson(p, sel)
     return p
@@ -166,7 +168,7 @@ def run(ctx, selftest=False):
 
     # 4. binding self-test
     good = good_pairs(ctx, t1, d1)
-    common.selftest_binding(ctx, isa.tspec('c06'), good, corruptions())
+    isa.selftest_binding(ctx, isa.tspec('c06'), good, corruptions())
     ctx.assumptions += [
         'stores: active lanes of a generated state target pairwise distinct addresses',
         'reads of LDS are observable only through panics (inactive lanes carry out-of-range addresses) and results',
